@@ -230,7 +230,7 @@ def oracle(transport, entry, Targ, pattern, r):
             return 'TIMEOUT reported with timeout=None'
     pattern = pattern.split('+')[0]
     if entry != 'read_nonblocking':
-        if pattern == 'immediate' and out != 'hit':
+        if pattern == 'immediate' and out != 'hit' and not (Teff is not None and Teff < 0):
             return 'text that was already readable was not examined (timeout %s): %s' % (Teff, out)
         if pattern in ('match_mid', 'trickle_then_match') and Teff is not None and Teff >= 1.5 and out != 'hit':
             return 'a match arriving before the deadline ended in %s' % out
@@ -252,8 +252,10 @@ def stage_virtual(ctx, stats, sigs):
     combos = []
     for tr in TRANSPORTS:
         for en in ENTRIES:
-            for Ta in TS:
+            for Ta in TS + [-0.5]:
                 for pa in PATTERNS:
+                    if Ta == -0.5 and en == 'read_nonblocking':
+                        continue           # a negative timeout (the time has already run out) is a convention of the expect family only
                     if Ta is None and pa in ('silence', 'trickle', 'burst_before'):
                         continue           # would (correctly) block forever
                     if tr == 'popen' and Ta is None and en == 'read_nonblocking':
@@ -270,7 +272,8 @@ def stage_virtual(ctx, stats, sigs):
     corpus = [('socket-own', 'expect', None, 'match_mid'), ('socket-own', 'read_nonblocking', None, 'match_mid'), ('socket-own', 'expect_exact', 2.0, 'match_mid'),
               ('pty-select', 'expect', 2.0, 'trickle'), ('socket', 'expect', 0, 'silence'), ('socket', 'expect', 0, 'immediate'),
               ('popen', 'expect', 0, 'immediate'), ('pty-select', 'expect_loop', -1, 'silence'), ('fd-poll', 'expect_list', -1, 'burst_after'),
-              ('pty-poll', 'read_nonblocking', 0.7, 'silence'), ('popen', 'expect_exact', 0.7, 'trickle')]
+              ('pty-poll', 'read_nonblocking', 0.7, 'silence'), ('popen', 'expect_exact', 0.7, 'trickle'),
+              ('pty-select', 'expect', -0.5, 'silence'), ('socket', 'expect_exact', -0.5, 'immediate'), ('fd-poll', 'expect_list', -0.5, 'trickle')]
     if ctx.quick():
         rng.shuffle(combos)
         rng.shuffle(sig_combos)
